@@ -28,7 +28,8 @@ func runC14(r *an.Run) {
 	noPackageLevelState(r, "R1-compiled-program-is-read-only")
 	c14FreshState(r)
 	c14NoAmbient(r)
-	c14FixedOrder(r, "R4-fixed-processing-order")
+	c15OnceInOrder(r)
+	relabel(r, "R3-each-file-once-in-fixed-order", "R4-fixed-processing-order")
 	if m := buildRunModel(r); m != nil {
 		crossFileState(r, m, "R5-cross-file-state")
 	}
